@@ -59,7 +59,8 @@ pub fn exec(it: &mut Interp, toks: &[&str], out: &mut Vec<String>) -> bool {
             let recs = gene_enrichment(&o, &sample);
             out.push(format!("ENR N={} n={} records={}", o.len(), sample.len(), recs.len()));
             for e in &recs {
-                out.push(format!("E {} {} {} {}", e.id().as_u32(), e.count(), f64bits(e.pvalue()), f64bits(e.enrichment())));
+                let wide = |x: f64| f64bits(x).replacen("f64:", "f64w:", 1);
+                out.push(format!("E {} {} {} {}", e.id().as_u32(), e.count(), wide(e.pvalue()), wide(e.enrichment())));
             }
             true
         }
